@@ -4,10 +4,12 @@ Line-protocol driver for the continuous-space models (C10, C18-cont).
 One output line per input line.  Coordinates and radii are ints in units of 1/64,
 squared distances ints in units of 1/4096.  See harness/cont_common.py for the producer.
 
-  scenario legacy T xmin xmax ymin ymax          (T = 0|1 torus)
+  (S = how the harness passes coordinates to the implementation; no meaning for the model:
+   legacy f = float tuples, i = ints where integral, a = numpy arrays; exp a = arrays, l = lists)
+  scenario legacy S T xmin xmax ymin ymax        (T = 0|1 torus)
     place a x y | move a x y | remove a | pos a | agents
     nbrs x y r incl | dist x1 y1 x2 y2 | heading x1 y1 x2 y2 | oob x y | adj x y
-  scenario exp T cap lo hi lo hi [lo hi]
+  scenario exp S T cap lo hi lo hi [lo hi]
     new a | set a x y [z] | get a | remove a | agents
     radius x y [z] r | knn x y [z] k | nir a r | nn a k
     dists x y [z] [: a b …] | diffs x y [z] [: a b …] | inb x y [z] | correct x y [z]
@@ -225,17 +227,17 @@ def pairs : List Int → Option (List (Int × Int))
 
 def stepLine (st : St) (ws : List String) : St × String :=
   match ws with
-  | "scenario" :: "legacy" :: rest =>
+  | "scenario" :: "legacy" :: style :: rest =>
     match ints rest with
     | some [t, xmin, xmax, ymin, ymax] =>
-      if (t = 0 ∨ t = 1) ∧ xmin < xmax ∧ ymin < ymax then
+      if style ∈ ["f", "i", "a"] ∧ (t = 0 ∨ t = 1) ∧ xmin < xmax ∧ ymin < ymax then
         (.leg (linit { xmin, xmax, ymin, ymax, torus := t == 1 }), "ok")
       else (st, "bad-op")
     | _ => (st, "bad-op")
-  | "scenario" :: "exp" :: t :: cap :: rest =>
+  | "scenario" :: "exp" :: style :: t :: cap :: rest =>
     match t.toNat?, cap.toNat?, (ints rest).bind pairs with
     | some t, some cap, some dims =>
-      if t ≤ 1 ∧ (dims.length = 2 ∨ dims.length = 3) then
+      if style ∈ ["a", "l"] ∧ t ≤ 1 ∧ (dims.length = 2 ∨ dims.length = 3) then
         (.exp (einit { dims, torus := t == 1 } cap) dims.length, "ok")
       else (st, "bad-op")
     | _, _, _ => (st, "bad-op")
